@@ -53,6 +53,8 @@ import (
 	"github.com/smallstep/certificates/authority"
 	"github.com/smallstep/certificates/authority/config"
 	"github.com/smallstep/certificates/authority/provisioner"
+	"github.com/smallstep/certificates/db"
+	"verif/harness/cmd/c16_routes/adminroutes"
 	c "verif/harness/common"
 	"verif/harness/fixture"
 )
@@ -62,13 +64,17 @@ type Case struct {
 	Method string
 	Path   string // admins | admin | provs | prov | policy
 	Mut    string
+	// Epoch: 0 = the CA as set up; 1 = after the issuing provisioner "jwk" was renamed to "jwk-old",
+	// a new provisioner created under the name "jwk" and "nobody" made its super administrator;
+	// 2 = after "jwk-old" (the issuer of every actor's certificate) was deleted as well
+	Epoch int `json:",omitempty"`
 }
 
 var (
 	actors  = []string{"super", "ord", "nobody", "gone", "foreign", "federated", "federated-ord", "nodigsig", "noext", "noclientauth"}
 	methods = []string{"GET", "POST", "PUT", "PATCH", "DELETE", "HEAD", "OPTIONS", "FROB"}
 	paths   = []string{"admins", "admin", "provs", "prov", "policy"}
-	muts    = []string{"valid", "replay", "otherpath", "expired", "notyet", "iatfuture", "wrongiss", "issprov",
+	muts    = []string{"valid", "replay", "replay-restart", "otherpath", "expired", "notyet", "iatfuture", "wrongiss", "issprov",
 		"emptysub", "wrongkey", "garbage", "nojti", "barepath", "audport"}
 )
 
@@ -85,6 +91,8 @@ type env struct {
 	actors map[string]*actor
 	ordID  string
 	other  crypto.Signer
+	routes []adminroutes.Route // the admin API's route table, from handler.go
+	epoch  int
 }
 
 func must[T any](v T, err error) T {
@@ -160,6 +168,11 @@ func newEnv() *env {
 // url path and request body for a case; bodies and ids are chosen so that a handler that is
 // reached refuses the request (nothing is ever created, changed or deleted)
 func (e *env) target(k Case) (path, body string) {
+	if strings.HasPrefix(k.Path, "/") {
+		// a route taken from the extracted route table; the body is not JSON and the parameters name
+		// nothing that exists, so a handler that is reached refuses
+		return k.Path, "x"
+	}
 	switch k.Path {
 	case "admins":
 		return "/admin/admins", `{"subject":""}`
@@ -230,6 +243,8 @@ func (e *env) mint(a *actor, k Case, path string) minted {
 	claims := map[string]any{"iss": m.iss, "sub": m.sub, "aud": m.aud, "nbf": m.nbf, "exp": m.exp, "iat": m.iat}
 	if jti != "" {
 		claims["jti"] = jti
+	} else {
+		claims["verif-salt"] = must(randutil.Hex(16)) // two tokens minted in the same second are two tokens
 	}
 	m.tok = must(jose.Signed(sig).Claims(claims).CompactSerialize())
 	return m
@@ -247,7 +262,7 @@ func stripPort(raw string) string {
 // bits computes the model's input fields for one token with the library calls AuthorizeAdminToken makes.
 func (e *env) bits(m minted) string {
 	p, ch, ds, sg := false, false, false, false
-	prov, rk := "!", "!"
+	org, rk := "!~!", "!"
 	var sans []string
 	jwt, err := jose.ParseSigned(m.tok)
 	if err == nil {
@@ -259,16 +274,18 @@ func (e *env) bits(m minted) string {
 			ds = leaf.KeyUsage&x509.KeyUsageDigitalSignature != 0
 			var cl jose.Claims
 			sg = jwt.Claims(leaf.PublicKey, &cl) == nil
-			if pr, err := e.ca.Auth.LoadProvisionerByCertificate(leaf); err == nil {
-				prov = hx(pr.GetName())
-				if id, err := pr.GetTokenID(m.tok); err == nil {
-					if id == "" {
-						sum := sha256.Sum256([]byte(m.tok))
-						id = strings.ToLower(hex.EncodeToString(sum[:]))
-					}
-					rk = hx(id)
+			// the reuse key: the token's id, or the hash of its payload (every provisioner here is a JWK one)
+			if cl.ID != "" {
+				rk = hx(cl.ID)
+			} else {
+				var uc jose.Claims
+				if jwt.UnsafeClaimsWithoutVerification(&uc) == nil && uc.ID != "" {
+					rk = hx(uc.ID)
+				} else {
+					rk = hx(noIDKey(m.tok))
 				}
 			}
+			org = e.origin(leaf)
 			sans = append([]string{leaf.Subject.CommonName}, leaf.DNSNames...)
 			sans = append(sans, leaf.EmailAddresses...)
 		}
@@ -281,9 +298,71 @@ func (e *env) bits(m minted) string {
 	for i, s := range sans {
 		sh[i] = hx(s)
 	}
-	return fmt.Sprintf("p=%s c=%s d=%s g=%s prov=%s rk=%s now=%d nbf=%d exp=%d iat=%d aud=%s dns=%s iss=%s sub=%s sans=%s adm=%s",
-		c.B(p), c.B(ch), c.B(ds), c.B(sg), prov, rk, time.Now().Unix(), m.nbf, m.exp, m.iat, c.List(auds), hx(fixture.DNSName),
+	return fmt.Sprintf("p=%s c=%s d=%s g=%s org=%s pmap=%s rk=%s now=%d nbf=%d exp=%d iat=%d aud=%s dns=%s iss=%s sub=%s sans=%s adm=%s",
+		c.B(p), c.B(ch), c.B(ds), c.B(sg), org, e.provMap(), rk, time.Now().Unix(), m.nbf, m.exp, m.iat, c.List(auds), hx(fixture.DNSName),
 		hx(m.iss), hx(m.sub), c.List(sh), e.admins())
+}
+
+// origin: what the CA has on the certificate — the provisioner id in its database record (read from
+// the database, not through LoadProvisionerByCertificate) and the name in its provisioner extension
+func (e *env) origin(leaf *x509.Certificate) string {
+	rec, ext := "!", "!"
+	type certificateDataGetter interface {
+		GetCertificateData(string) (*db.CertificateData, error)
+	}
+	if g, ok := e.ca.Auth.GetDatabase().(certificateDataGetter); ok {
+		if data, err := g.GetCertificateData(leaf.SerialNumber.String()); err == nil && data != nil && data.Provisioner != nil {
+			rec = hx(data.Provisioner.ID)
+		}
+	}
+	if x, ok := provisioner.GetProvisionerExtension(leaf); ok {
+		ext = hx(x.Name)
+	}
+	return rec + "~" + ext
+}
+
+// provMap: id~name of every provisioner the CA serves now
+func (e *env) provMap() string {
+	var out []string
+	cur := ""
+	for {
+		l, next, _ := e.ca.Auth.GetProvisioners(cur, 100)
+		for _, p := range l {
+			out = append(out, hx(p.GetID())+"~"+hx(p.GetName()))
+		}
+		if next == "" {
+			break
+		}
+		cur = next
+	}
+	sort.Strings(out)
+	return c.List(out)
+}
+
+// advance brings the CA to the given epoch (see Case.Epoch) with the authority calls the admin API makes
+func (e *env) advance(to int) {
+	ctx := e.srv.Base
+	for e.epoch < to {
+		switch e.epoch {
+		case 0:
+			old := must(e.ca.Auth.LoadProvisionerByName("jwk"))
+			lp := must(e.ca.Auth.GetAdminDatabase().GetProvisioner(ctx, old.GetID()))
+			lp.Name = "jwk-old"
+			must(0, e.ca.Auth.UpdateProvisioner(ctx, lp))
+			jwk := must(jose.GenerateJWK("EC", "P-256", "ES256", "sig", "", 0))
+			pub := jwk.Public()
+			np := &linkedca.Provisioner{Name: "jwk", Type: linkedca.Provisioner_JWK,
+				Details: &linkedca.ProvisionerDetails{Data: &linkedca.ProvisionerDetails_JWK{JWK: &linkedca.JWKProvisioner{PublicKey: must(pub.MarshalJSON())}}},
+				Claims:  &linkedca.Claims{X509: &linkedca.X509Claims{Enabled: true}}}
+			must(0, e.ca.Auth.StoreProvisioner(ctx, np))
+			p2 := must(e.ca.Auth.LoadProvisionerByName("jwk"))
+			must(0, e.ca.Auth.StoreAdmin(ctx, &linkedca.Admin{ProvisionerId: p2.GetID(), Subject: "nobody", Type: linkedca.Admin_SUPER_ADMIN}, p2))
+		case 1:
+			old := must(e.ca.Auth.LoadProvisionerByName("jwk-old"))
+			must(0, e.ca.Auth.RemoveProvisioner(ctx, old.GetID()))
+		}
+		e.epoch++
+	}
 }
 
 // admins renders the (subject, provisioner name) → admin index of the running CA.
@@ -314,6 +393,40 @@ func (e *env) admins() string {
 	}
 	sort.Strings(out)
 	return c.List(out)
+}
+
+// reuseKey computes what UseToken stores for this token ("" when no key can be obtained)
+func (e *env) reuseKey(m minted) string {
+	jwt, err := jose.ParseSigned(m.tok)
+	if err != nil {
+		return ""
+	}
+	if _, err := jwt.Headers[0].Certificates(x509.VerifyOptions{Roots: e.roots, KeyUsages: []x509.ExtKeyUsage{x509.ExtKeyUsageClientAuth}}); err != nil {
+		return ""
+	}
+	var uc jose.Claims
+	if jwt.UnsafeClaimsWithoutVerification(&uc) == nil && uc.ID != "" {
+		return uc.ID
+	}
+	return noIDKey(m.tok)
+}
+
+// noIDKey: a token without an id is identified by its signed payload (c4bb6a3), not by its spelling
+func noIDKey(tok string) string {
+	material := []byte(tok)
+	if jws, err := jose.ParseJWS(tok); err == nil {
+		if payload := jws.UnsafePayloadWithoutVerification(); len(payload) > 0 {
+			material = payload
+		}
+	}
+	sum := sha256.Sum256(material)
+	return strings.ToLower(hex.EncodeToString(sum[:]))
+}
+
+// restart shuts the CA down and starts a new one on the same database and keys
+func (e *env) restart() {
+	e.ca = must(e.ca.Restart())
+	e.srv = must(e.ca.NewServer())
 }
 
 func (e *env) request(method, path, body, tok string) *http.Request {
@@ -372,22 +485,76 @@ func (e *env) viaHTTP(method, path, body, tok string, twice bool) string {
 	return r
 }
 
+// routedByTable: does a route of the extracted table match method and path (chi patterns: a
+// {parameter} is one non-empty segment)?
+func (e *env) routedByTable(method, path string) bool {
+	rel, ok := strings.CutPrefix(path, "/admin")
+	if !ok {
+		return false
+	}
+	ps := strings.Split(rel, "/")
+	for _, rt := range e.routes {
+		if rt.Method != method {
+			continue
+		}
+		qs := strings.Split(rt.Path, "/")
+		if len(qs) != len(ps) {
+			continue
+		}
+		match := true
+		for i := range qs {
+			if strings.HasPrefix(qs[i], "{") && strings.HasSuffix(qs[i], "}") {
+				match = match && ps[i] != ""
+			} else {
+				match = match && qs[i] == ps[i]
+			}
+		}
+		if match {
+			return true
+		}
+	}
+	return false
+}
+
 func (e *env) run(k Case) (line, impl string) {
 	a := e.actors[k.Actor]
 	path, body := e.target(k)
 	before := e.admins()
-	// is there a route for (method, path)? asked without credentials: a routed request answers 401
-	// "missing authorization header token", an unrouted one 404/405 (chi routing is an input)
-	probe := e.srv.Serve(e.request(k.Method, path, body, ""), 60*time.Second)
-	routed := probe.Status == 401
+	// is there a route for (method, path)? read off the route table extracted from handler.go
+	// (not from the router's answer: a route registered without the token check must not pass for
+	// "no such route")
+	routed := e.routedByTable(k.Method, path)
 	m1 := e.mint(a, k, path)
 	fieldsS := e.bits(m1)
-	twice := k.Mut == "replay"
-	d := e.direct(k.Method, path, m1.tok, twice)
+	twice := k.Mut == "replay" || k.Mut == "replay-restart"
+	var d string
 	h := "unrouted"
-	if routed {
-		m2 := e.mint(a, k, path)
-		h = e.viaHTTP(k.Method, path, body, m2.tok, twice)
+	if k.Mut == "replay-restart" {
+		// use both tokens, restart the CA on the same database, present them again
+		var m2 minted
+		e.direct(k.Method, path, m1.tok, false)
+		if routed {
+			m2 = e.mint(a, k, path)
+			e.viaHTTP(k.Method, path, body, m2.tok, false)
+		}
+		e.restart()
+		d = e.direct(k.Method, path, m1.tok, false)
+		if routed {
+			h = e.viaHTTP(k.Method, path, body, m2.tok, false)
+		}
+	} else {
+		d = e.direct(k.Method, path, m1.tok, twice)
+		if routed {
+			m2 := e.mint(a, k, path)
+			h = e.viaHTTP(k.Method, path, body, m2.tok, twice)
+		}
+	}
+	// the real token store: is the reuse key of the first token recorded now?
+	st := "0"
+	if key := e.reuseKey(m1); key != "" {
+		if fresh, err := e.ca.Auth.GetDatabase().UseToken(key, m1.tok); err == nil && !fresh {
+			st = "1"
+		}
 	}
 	aw := strings.HasPrefix(path, "/admin/admins") && k.Method != "GET"
 	if after := e.admins(); after != before {
@@ -395,7 +562,7 @@ func (e *env) run(k Case) (line, impl string) {
 	}
 	js, _ := json.Marshal(k)
 	line = fmt.Sprintf("tok %s path=%s m=%s rep=%s routed=%s case=x%s", fieldsS, hx(path), hx(k.Method), c.B(twice), c.B(routed), hex.EncodeToString(js))
-	return line, fmt.Sprintf("%s h-%s aw-%s", d, h, c.B(aw))
+	return line, fmt.Sprintf("%s h-%s aw-%s st-%s", d, h, c.B(aw), st)
 }
 
 func main() {
@@ -408,11 +575,42 @@ func main() {
 	defer e.ca.Close()
 	o := must(c.NewOut(*out))
 	defer o.Close()
+	repo := os.Getenv("VERIF_REPO")
+	if repo == "" {
+		repo = "/repo"
+	}
+	routes, rerr := adminroutes.Extract(repo)
+	if rerr != nil {
+		o.Case("tok routes-extract-failed", "extract-failed")
+	}
+	e.routes = routes
 	emit := func(k Case) {
 		if e.actors[k.Actor] == nil {
 			return
 		}
+		if k.Epoch < e.epoch {
+			// an earlier state is wanted (replay): start over
+			e.ca.Close()
+			e = newEnv()
+			e.routes = routes
+		}
+		e.advance(k.Epoch)
 		o.Case(e.run(k))
+	}
+	// the issuing provisioner is renamed, its name given to a new provisioner with "nobody" as super
+	// administrator (epoch 1), then deleted (epoch 2): whose certificate is it? Last on every run.
+	scenario := func() {
+		for ep := 1; ep <= 2; ep++ {
+			for _, a := range []string{"super", "ord", "nobody", "gone", "noext", "foreign"} {
+				for _, mp := range [][2]string{{"GET", "admins"}, {"PATCH", "admin"}, {"GET", "/admin/provisioners/jwk"}} {
+					emit(Case{Actor: a, Method: mp[0], Path: mp[1], Mut: "valid", Epoch: ep})
+				}
+			}
+			for _, mu := range []string{"replay", "replay-restart", "garbage", "wrongkey"} {
+				emit(Case{Actor: "nobody", Method: "GET", Path: "admins", Mut: mu, Epoch: ep})
+				emit(Case{Actor: "super", Method: "GET", Path: "admins", Mut: mu, Epoch: ep})
+			}
+		}
 	}
 	if *replay != "" {
 		data := must(os.ReadFile(*replay))
@@ -441,14 +639,25 @@ func main() {
 	for _, a := range actors {
 		for _, m := range methods {
 			for _, p := range paths {
-				emit(Case{a, m, p, "valid"})
+				emit(Case{Actor: a, Method: m, Path: p, Mut: "valid"})
 			}
 		}
 	}
 	for _, a := range []string{"super", "ord"} {
 		for _, mu := range muts {
 			for _, mp := range [][2]string{{"PATCH", "admin"}, {"DELETE", "admin"}, {"POST", "admins"}, {"GET", "admins"}, {"PUT", "prov"}} {
-				emit(Case{a, mp[0], mp[1], mu})
+				emit(Case{Actor: a, Method: mp[0], Path: mp[1], Mut: mu})
+			}
+		}
+	}
+	// every route registered by the admin API (table extracted from handler.go): unauthenticated,
+	// foreign, non-admin, ordinary and super administrators
+	subst := strings.NewReplacer("{name}", "no-such-provisioner", "{provisionerName}", "no-such-provisioner", "{id}", "no-such-admin",
+		"{reference}", "x", "{keyID}", "x", "{webhookName}", "x")
+	for _, rt := range routes {
+		for _, a := range []string{"super", "ord", "nobody", "federated"} {
+			for _, mu := range []string{"valid", "garbage"} {
+				emit(Case{Actor: a, Method: rt.Method, Path: "/admin" + subst.Replace(rt.Path), Mut: mu})
 			}
 		}
 	}
@@ -457,15 +666,17 @@ func main() {
 			for _, m := range methods {
 				for _, p := range paths {
 					for _, mu := range muts[1:] {
-						emit(Case{a, m, p, mu})
+						emit(Case{Actor: a, Method: m, Path: p, Mut: mu})
 					}
 				}
 			}
 		}
+		scenario()
 		return
 	}
 	r := c.NewRng(c.Seed())
 	for i := 0; i < *n; i++ {
-		emit(Case{c.Pick(r, actors), c.Pick(r, methods), c.Pick(r, paths), c.Pick(r, muts)})
+		emit(Case{Actor: c.Pick(r, actors), Method: c.Pick(r, methods), Path: c.Pick(r, paths), Mut: c.Pick(r, muts)})
 	}
+	scenario()
 }
